@@ -4,6 +4,7 @@ import (
 	"bytes"
 	"fmt"
 	"io"
+	"math/big"
 	"math/rand"
 	"strings"
 	"sync"
@@ -71,11 +72,12 @@ func c01TimeOracle(unit string, t time.Time) (leaf int64, back time.Time) {
 
 // class of the input, part of the failure key: which regime of the mapping it exercises
 func c01TimeClass(unit string, t time.Time) string {
-	sec := t.Unix()
+	sec, nsec := t.Unix(), int64(t.Nanosecond())
+	ns := new(big.Int).Add(new(big.Int).Mul(big.NewInt(sec), big.NewInt(1000000000)), big.NewInt(nsec))
 	switch {
-	case sec > 9223372036 || sec < -9223372036:
+	case !ns.IsInt64():
 		return "outside-int64-nanoseconds"
-	case unit == "date" && sec < 0 && sec%86400 != 0:
+	case unit == "date" && sec < 0 && (sec%86400 != 0 || nsec != 0):
 		return "before-epoch-within-day"
 	case sec < 0:
 		return "before-epoch"
